@@ -17,6 +17,7 @@ def merge_sched(parts):
     out["max_accesses_per_call"] = 0
     out["stops_by_site"] = {}
     out["starts"] = {}
+    out["environments"] = {}
     viol, samples, hashes = [], [], []
     lost = 0
     for p in parts:
@@ -38,6 +39,8 @@ def merge_sched(parts):
             out["stops_by_site"][k] = out["stops_by_site"].get(k, 0) + v
         for k, v in p.get("starts", {}).items():
             out["starts"][k] = out["starts"].get(k, 0) + v
+        for k, v in p.get("environments", {}).items():
+            out["environments"][k] = out["environments"].get(k, 0) + v
         viol += p.get("violations", [])
         samples += p.get("samples", [])[:1]
         hashes.append(p.get("_hashes"))
@@ -204,15 +207,23 @@ def run_proc(ctx, seconds, nreaders=3, ngroups=4):
     base = "/dev/shm/cbverif-proc-%d" % os.getpid()
     os.makedirs(base, exist_ok=True)
     try:
+        # Each group lives in its own environment: the daemon's file-creation mask, and whether the
+        # configured path is a symbolic link to the segment file.
+        envs = [(0o022, False), (0o002, False), (0o000, True), (0o077, False), (0o002, True), (0o027, False)]
+        agg["environments"] = []
         for g in range(ngroups):
             path = os.path.join(base, "shm%d" % g)
+            um, link = envs[(g + ctx.seed) % len(envs)] if g else envs[0]
+            if link:
+                os.symlink(os.path.join(base, "real%d" % g), path)
+            agg["environments"].append("umask%03o%s" % (um, "/symlink" if link else ""))
             readers = [subprocess.Popen([binary, "reader", path, "%d.%d" % (g, r)], stdin=subprocess.PIPE, stdout=subprocess.PIPE, text=True, bufsize=1) for r in range(nreaders)]
-            groups.append({"path": path, "readers": readers, "writer": None, "last_answers": [0] * nreaders})
+            groups.append({"path": path, "readers": readers, "writer": None, "last_answers": [0] * nreaders, "umask": um})
         t_end = time.time() + seconds
         while time.time() < t_end and len(viol) < 20:
             for grp in groups:
                 if grp["writer"] is None:
-                    grp["writer"] = subprocess.Popen([binary, "writer", grp["path"]], stdout=subprocess.DEVNULL, stderr=subprocess.DEVNULL)
+                    grp["writer"] = subprocess.Popen([binary, "writer", grp["path"]], stdout=subprocess.DEVNULL, stderr=subprocess.DEVNULL, umask=grp["umask"])
                     agg["restarts"] += 1
             time.sleep(rng.choice([0.002, 0.005, 0.01, 0.03, 0.08]))
             for grp in groups:
